@@ -296,6 +296,20 @@ theorem heap_merge_spine_fresh (o : ListStrategy) (f : Nat) (h h' : Heap) (n v r
       ∃ c, h'.get? r = some c ∧ c.isCont = cn.isCont ∧ c.isList = cn.isList :=
   mergeNodeF_spine_fresh hm hn hv hk
 
+/-- SPINE, path by path: on a closed heap whose children maps are Go maps (unique keys), for
+    every path `ks` of member names that leads to a container both in A and in B, the result
+    has a container at `ks` that was allocated by this Merge call — the root (`ks = []`) and
+    every container on the merged spine is a new object, for both list strategies. -/
+theorem heap_merge_spine_path (o : ListStrategy) (f : Nat) (h h' : Heap) (hc : h.Closed)
+    (hs : h.MapsOk) (c1 c2 r : Addr) (hm : mergeContainersF o f h c1 c2 = some (h', r))
+    (ks : List String) (x y : Addr) (kx ky : AMap Addr)
+    (hx : lookupKeys h c1 ks = some x) (hy : lookupKeys h c2 ks = some y)
+    (cx : h.get? x = some (.cont kx)) (cy : h.get? y = some (.cont ky)) :
+    ∃ z m, lookupKeys h' r ks = some z ∧ h.size ≤ z ∧ z < h'.size ∧ h'.get? z = some (.cont m) := by
+  obtain ⟨ka, kb, h1, h2, hm'⟩ := mergeContainersF_inv hm
+  exact mergeNodeF_spine_path o hc hs ks f h c1 c2 h' r x y (Heap.le_refl _) (Heap.get?_lt h1)
+    (Heap.get?_lt h2) hm' hx hy ⟨kx, cx⟩ ⟨ky, cy⟩
+
 /-- … and writes to those new cells (and allocations) afterwards leave every root of the old
     heap — A and B — unchanged. -/
 theorem heap_merge_result_writes (o : ListStrategy) (f : Nat) (h h1 h2 : Heap) (c1 c2 r : Addr)
@@ -323,8 +337,16 @@ def exMHeap : Heap := ⟨[.leaf Scalar.null, .leaf ⟨"int", "1"⟩, .leaf Scala
 
 def exMRank : Addr → Nat | 5 => 2 | 9 => 2 | 3 => 1 | 4 => 1 | 7 => 1 | 8 => 1 | _ => 0
 
-theorem nonvacuous_heap_wf : exMHeap.Closed ∧ exMHeap.RankedBy exMRank ∧ exMHeap.NilOk :=
-  ⟨closed_of_all (by decide), rankedBy_of_all (by decide), rfl⟩
+theorem nonvacuous_heap_wf :
+    exMHeap.Closed ∧ exMHeap.RankedBy exMRank ∧ exMHeap.NilOk ∧ exMHeap.MapsOk :=
+  ⟨closed_of_all (by decide), rankedBy_of_all (by decide), rfl, mapsOk_of_all (by decide)⟩
+
+/-- the path ["c"] leads to a container on both sides (#4, #8); in the result it leads to the
+    new cell #10 -/
+theorem nonvacuous_heap_spine :
+    lookupKeys exMHeap 5 ["c"] = some 4 ∧ lookupKeys exMHeap 9 ["c"] = some 8 ∧
+    ((mergeContainers .meld exMHeap 5 9).bind fun p => lookupKeys p.1 p.2 ["c"]) = some 10 := by
+  decide
 
 /-- meld: three new cells (merged `c`, melded `l`, the root), the old ten cells untouched, the
     result abstracts to the value-level merge of the abstractions -/
